@@ -97,10 +97,10 @@ static void exec_c06(const void *k, res_t *r, const runcfg_t *cfg) {
     const row_t *row = &g_rows[c->row];
     int failed;
     size_t i;
-    (void)cfg;
     gc_run(c, &X);
     r->hash = gc_hash(c);
     if (X.faulted) { res_label(r, "foreign-fault"); if (X.sig != SIGSEGV) r->fragile = 1; return; }
+    g_model_noslack = cfg->libcfg && strstr(cfg->libcfg, "noslack") != NULL;
     ref_model(row, c, X.dest_before, X.src_before, &M);
     if (!M.known) { res_label(r, "model:declines"); return; }
     failed = mcall_failed(row, &X);
@@ -149,12 +149,12 @@ static void exec_c10(const void *k, res_t *r, const runcfg_t *cfg) {
     const row_t *row = &g_rows[c->row];
     int failed;
     long code;
-    (void)cfg;
     gc_run(c, &X);
     r->hash = gc_hash(c);
     if (c->ex_on) { r->hash = cs_hash_bytes(r->hash, c->ex_d, 7); r->hash = cs_hash_bytes(r->hash, c->ex_s, 7); }
     else r->hash = cs_hash_u64(r->hash, c->cseed);
     if (X.faulted) { res_label(r, "foreign-fault"); if (X.sig != SIGSEGV) r->fragile = 1; return; }
+    g_model_noslack = cfg->libcfg && strstr(cfg->libcfg, "noslack") != NULL;
     ref_model(row, c, X.dest_before, X.src_before, &M);
     if (!M.known) { res_label(r, "model:declines"); return; }
     failed = mcall_failed(row, &X);
